@@ -466,6 +466,7 @@ class Hist:
         self.insync = (kind == "memory") or self.init_canon is None
         self.flags = set()
         self.failed_save = False    # a save() failed since the last successful save/load
+        self.owned = {}             # oracle: id(settings object) -> {protocol: identifier the device has NOW}
 
     # ---- bookkeeping
     def handle_of(self, obj):
@@ -475,11 +476,12 @@ class Hist:
         return None
 
     def learn(self, extra=None):
-        for o in self.st.settings:
+        for o in list(self.st.settings) + ([extra] if extra is not None else []):
             if self.handle_of(o) is None:
                 self.handles.append(o)
-        if extra is not None and self.handle_of(extra) is None:
-            self.handles.append(extra)
+                # first sight (created, or read from the file): the identifiers it carries are the device's
+                cont = dict(self.drv.content(o))
+                self.owned[id(o)] = {p: dict(cont.get(p, [])).get("identifier") for p in PROTOS}
 
     def contents(self):
         return [self.drv.content(o) for o in self.st.settings]
@@ -497,7 +499,12 @@ class Hist:
         if was_known:
             if not set(mine) & set(ids):
                 self.err("C14:lookup:disjoint-device", "get_settings returned the settings of a device with disjoint identifiers")
+            now = {v for v in self.owned.get(id(obj), {}).values() if v is not None}
+            if id(obj) in self.owned and not now & set(ids):
+                self.err("C14:lookup:disjoint-device", "get_settings returned the settings of a device through an identifier that device "
+                         "no longer has (it was cleared by update_settings or by assignment)")
         else:
+            self.owned[id(obj)] = dict({p: None for p in PROTOS}, **{s["p"]: s["id"] for s in cfg})
             if not set(mine) <= set(ids):
                 self.err("C14:lookup:new-record-foreign-identifier", "newly created settings carry an identifier the configuration does not have")
         # same object again for the same configuration, storage untouched
@@ -591,8 +598,30 @@ class Hist:
                 conf = drv.config(o["cfg"])
                 before = list(st.settings)
                 if k == "update":
-                    drv.run(st.update_settings(conf))
+                    touched = []
+                    real_get = st.get_settings
+
+                    async def noting(c):
+                        r = await real_get(c)
+                        touched.append(r)
+                        return r
+                    st.get_settings = noting
+                    try:
+                        drv.run(st.update_settings(conf))
+                    finally:
+                        del st.get_settings
                     obs = ("unit",)
+                    if touched:
+                        # update_settings writes the configuration back: the identifier recorded for every
+                        # protocol the configuration has a service for is that service's identifier - None included
+                        self.learn(touched[-1])
+                        cont = dict(drv.content(touched[-1]))
+                        own = self.owned.setdefault(id(touched[-1]), {p: None for p in PROTOS})
+                        for sv in o["cfg"]:
+                            own[sv["p"]] = sv["id"]
+                            if dict(cont.get(sv["p"], [])).get("identifier") != sv["id"]:
+                                self.err("C14:update:identifier-not-taken-over", "after update_settings the identifier stored for the %s "
+                                         "service is not the one the configuration has (%r)" % (sv["p"], sv["id"]))
                 else:
                     obj = drv.run(st.get_settings(conf))
                     self.learn(obj)
@@ -610,6 +639,8 @@ class Hist:
             elif k == "set":
                 setattr(drv.sub(self.handles[o["h"]], o["sec"]), o["key"], drv.pyval(o["sec"], o["key"], o["val"]))
                 obs = ("unit",)
+                if o["key"] == "identifier" and o["sec"] in PROTOS and id(self.handles[o["h"]]) in self.owned:
+                    self.owned[id(self.handles[o["h"]])][o["sec"]] = o["val"]
             elif k in ("save", "savefault"):
                 was_changed = st.changed
                 differs = self.contents() != self.last
@@ -1082,6 +1113,19 @@ def histories(ctx, sections):
                     yield ("glue", kind, None, pre + [{"op": "pyscan", "devices": devs, "identifier": flt, "unicast": pos % 2 == 1}] + tail)
             for flt in ("A", "B2", ["C", "A2"], "Z"):
                 yield ("glue", kind, None, pre + [{"op": "pyscan", "devices": base + [unknown], "identifier": flt}] + tail)
+
+    # update_settings with a configuration in which a protocol the device was stored with has lost its
+    # identifier (None) or its service altogether; then an unrelated device turns up with the old identifier
+    for p1, p2 in (("dmap", "mrp"), ("airplay", "raop"), ("companion", "airplay"), ("raop", "dmap")):
+        first = [svc(p1, "X1", cr="cred-1"), svc(p2, "Y2", cr="cred-2")]
+        other = [svc(p1, "X1")]
+        for upd in ([svc(p1, None), svc(p2, "Y2")], [svc(p2, "Y2")], [svc(p1, None, cr="new"), svc(p2, "Y2", cr="new2")],
+                    [svc(p1, "X9"), svc(p2, "Y2")]):
+            for kind in ("memory", "file"):
+                mid = [{"op": "save"}, {"op": "fresh"}, {"op": "load"}] if kind == "file" else []
+                yield ("identifier-dropped", kind, None, [{"op": "get", "cfg": first}] + mid + [
+                    {"op": "update", "cfg": upd}, {"op": "scan", "cfg": other}, {"op": "get", "cfg": [svc(p2, "Y2")]},
+                    {"op": "changed"}, {"op": "save"}])
 
     # the zero-device boundary: devices come into the storage (looked up, or loaded from a file), all of
     # them are removed again, save, load into a fresh storage: nothing may come back
